@@ -485,7 +485,9 @@ impl ParseState {
 
     fn end(self, offset: usize) -> Result<Option<Segment>, ParseError> {
         match self {
-            ParseState::Start | ParseState::SegmentStart => Err(ParseError(offset)),
+            ParseState::Start | ParseState::SegmentStart | ParseState::AfterScheme => {
+                Err(ParseError(offset))
+            }
             ParseState::Literal(start) | ParseState::SchemeOrLiteral(start) => {
                 let length = offset - start;
                 if length > 0 {
